@@ -100,9 +100,12 @@ theorem instStep (hct : CTOk ct) (hcl : Closed objs0 N0) (st : State) (P : List 
       · by_cases hlt : y < st.next
         · rw [hold y hlt] at ho
           exact (hI.new y o hy ho c hc).keep hk
-        · obtain ⟨z, hz, hz1, _, hz3⟩ := hnewobjs y o (Nat.le_of_not_lt hlt) ho c hc
-          subst hz
-          exact Or.inr ⟨Nat.le_trans hI.le hz1, hz3⟩
+        · rcases hnewobjs y o (Nat.le_of_not_lt hlt) ho c hc with hat | ⟨z, hz, hz1, _, hz3⟩
+          · cases c with
+            | atom a => trivial
+            | ref z => cases hat
+          · subst hz
+            exact Or.inr ⟨Nat.le_trans hI.le hz1, hz3⟩
     · intro p hp
       obtain ⟨y, hy, hy1, _, hy3⟩ := hvals p hp
       rw [hy]
